@@ -70,6 +70,14 @@ theorem split_unique (bs : Bytes) (ts : List Tlv) :
   · intro h; have := splitTlvs_eq h; exact ⟨this.2, this.1⟩
   · rintro ⟨ho, rfl⟩; exact splitTlvs_concat ts ho
 
+/-- minimal forms are read, the same value in a longer form is refused: long form below 128, a leading zero length octet,
+an indefinite length, a high-tag-number form for a tag below 31 -/
+example : parseTlv [0x04, 0x02, 0xaa, 0xbb, 0xff] = some (⟨[0x04], [0xaa, 0xbb]⟩, [0xff]) ∧
+    parseTlv [0x04, 0x81, 0x02, 0xaa, 0xbb] = none ∧ parseTlv [0x24, 0x80, 0x00, 0x00] = none ∧
+    parseTlv [0x1f, 0x1e, 0x00] = none ∧ parseTlv [0xbf, 0x8f, 0x10, 0x01, 0x00] = some (⟨[0xbf, 0x8f, 0x10], [0x00]⟩, []) ∧
+    splitTlvs [0x05, 0x00, 0x02, 0x01, 0x07] = some [⟨[0x05], []⟩, ⟨[0x02], [0x07]⟩] ∧ splitTlvs [0x05, 0x00, 0x02] = none := by
+  decide
+
 /-! ## concrete material for the non-vacuity examples -/
 
 def utc2030 : Bytes := [0x33, 0x30, 0x30, 0x31, 0x30, 0x31, 0x30, 0x30, 0x30, 0x30, 0x30, 0x30, 0x5a]   -- "300101000000Z"
@@ -357,6 +365,15 @@ theorem routes_commute_preissuer_all (c : Tbs) (p : PreIssuer) (piName : Tlv) (p
   (routes_commute_preissuer c p piName pe fe i j pc sc pv sv hEku hrel hnp hns
     (by rw [wf_insertAt]; exact hwp) (by rw [wf_insertAt]; exact hws)).1
 
+/-- append case, every position against every position: the final issuer writes the key id last -/
+example (i j : Nat) :
+    buildPrecertTBS (marshalTbs (({ exBase with issuer := ⟨[0x30], [0x31, 0x01, 0x00]⟩ } : Tbs).withExts (insertAt [exKU] i exPoison))) (some exPre)
+      = removeExt sctOid (marshalTbs (({ exBase with issuer := exPre.issuer } : Tbs).withExts
+          (insertAt [exKU, ⟨akiOid, false, [0x30, 0x03, 0x80, 0x01, 0x09]⟩] j exSct))) :=
+  routes_commute_preissuer_all exBase exPre ⟨[0x30], [0x31, 0x01, 0x00]⟩ [exKU] _ true false _ _ rfl
+    (AkiRel.append [exKU] _ (by intro e he; simp at he; subst he; decide)) (by decide) (by decide)
+    (by set_option maxRecDepth 100000 in decide) (by set_option maxRecDepth 100000 in decide) i j
+
 /-- replace case: precertificate issued by the pre-issuer (issuer name `30 02 31 01`… here `30 00`-style stand-in, AKI key id 07),
 final certificate issued by the pre-issuer's issuer (AKI key id 09) -/
 example :
@@ -402,6 +419,30 @@ theorem leaf_routes_commute_preissuer (c : Tbs) (p : PreIssuer) (piName : Tlv) (
   obtain ⟨h1, h2⟩ := routes_commute_preissuer c p piName pe fe i j pc sc pv sv hEku hrel hnp hns hwp hws
   simp only [leafFromPrecertChain, leafForEmbeddedSCT, ← h1, h2]
   simp
+
+/-- **An embedded SCT verifies exactly when the log signed that precertificate.** Whatever the log signed and the client checks
+is a function `verify` of the entry (`ct.SerializeSCTSignatureInput` over the `PreCert` entry, then the signature check of
+C05): since both routes build the same entry, the verdict is the same — for the direct and the pre-issuer layout. -/
+theorem embedded_sct_verifies_iff {β : Type} (verify : Bytes × Bytes → β) (c : Tbs) (p : PreIssuer) (piName : Tlv) (pe fe : List Ext)
+    (i j : Nat) (pc sc : Bool) (pv sv : Bytes) (kPre kIssuer : Bytes) (r1 r2 : List Bytes)
+    (hEku : p.ctEku = true) (hrel : AkiRel p.aki pe fe)
+    (hnp : hasOid poisonOid pe = false) (hns : hasOid sctOid fe = false)
+    (hwp : (({ c with issuer := piName } : Tbs).withExts (insertAt pe i ⟨poisonOid, pc, pv⟩)).wf = true)
+    (hws : (({ c with issuer := p.issuer } : Tbs).withExts (insertAt fe j ⟨sctOid, sc, sv⟩)).wf = true) :
+    (leafFromPrecertChain (marshalTbs (({ c with issuer := piName } : Tbs).withExts (insertAt pe i ⟨poisonOid, pc, pv⟩)))
+        (kPre :: kIssuer :: r1) (some p)).map verify
+      = (leafForEmbeddedSCT (marshalTbs (({ c with issuer := p.issuer } : Tbs).withExts (insertAt fe j ⟨sctOid, sc, sv⟩))) (kIssuer :: r2)).map verify := by
+  rw [(leaf_routes_commute_preissuer c p piName pe fe i j pc sc pv sv kPre kIssuer r1 r2 hEku hrel hnp hns hwp hws).1]
+
+/-- pre-issuer layout on concrete chains: `[precert, preIssuer(key 1), issuer(key 2)]` against `[final, issuer(key 2)]` -/
+example :
+    leafFromPrecertChain (marshalTbs (({ exBase with issuer := ⟨[0x30], [0x31, 0x01, 0x00]⟩ } : Tbs).withExts [exKU, exPoison, exAKI])) [[1], [2]] (some exPre)
+      = leafForEmbeddedSCT (marshalTbs (({ exBase with issuer := exPre.issuer } : Tbs).withExts
+          [exSct, exKU, { exAKI with val := [0x30, 0x03, 0x80, 0x01, 0x09] }])) [[2]] ∧
+    (leafForEmbeddedSCT (marshalTbs (({ exBase with issuer := exPre.issuer } : Tbs).withExts
+          [exSct, exKU, { exAKI with val := [0x30, 0x03, 0x80, 0x01, 0x09] }])) [[2]]).isSome = true ∧
+    leafFromPrecertChain (marshalTbs (({ exBase with issuer := ⟨[0x30], [0x31, 0x01, 0x00]⟩ } : Tbs).withExts [exKU, exPoison, exAKI])) [[1]] (some exPre) = none := by
+  set_option maxRecDepth 100000 in decide
 
 example : leafFromPrecertChain (marshalTbs (exBase.withExts [exPoison, exKU])) [[1], [2]] none
     = leafForEmbeddedSCT (marshalTbs (exBase.withExts [exKU, exSct])) [[1]] ∧
@@ -507,6 +548,10 @@ theorem sctlist_min (l : List Bytes) (h : l = [] ∨ [] ∈ l) : sctExtValue gen
           · subst h; simp [hmin.1] at hb
           · simp [ih h]
     simp [sctExtValue, marshalSctList, this]
+
+example : sctExtValue genLim [] = none ∧ sctExtValue genLim [[0x01], []] = none ∧
+    sctExtValue rfcLim [[0xaa]] = sctExtValue genLim [[0xaa]] ∧ (sctExtValue genLim [[0xaa]]).isSome = true := by
+  set_option maxRecDepth 100000 in decide
 
 example : sctExtValue genLim [[0xaa, 0xbb], [0xcc]] = some [0x04, 0x09, 0x00, 0x07, 0x00, 0x02, 0xaa, 0xbb, 0x00, 0x01, 0xcc] ∧
     parseSctExtValue genLim [0x04, 0x09, 0x00, 0x07, 0x00, 0x02, 0xaa, 0xbb, 0x00, 0x01, 0xcc] = some [[0xaa, 0xbb], [0xcc]] ∧
